@@ -143,6 +143,7 @@ def switches_config():
             with_wave=st.booleans(),
             flag=flag_kind(),
             CD0=S.fl(0.0, 0.05, 0.015, 0.0),
+            CL0=st.sampled_from([0.0, 0.0, 0.15, 0.3, -0.1]),
             toc=st.floats(0.05, 0.2),
             k_lam=st.sampled_from([0.05, 0.0, 1.0, 0.3]),
             comp=st.lists(st.floats(-0.5, 0.5), min_size=4, max_size=4),
@@ -452,10 +453,15 @@ def verdict_switches(desc):
     fl["re"] = max(fl["re"], 2.0e3 / (cmin * (k if k > 0 else 1.0)))
     kind = desc["flag"]
 
+    CL0 = float(desc.get("CL0", 0.0))
+    geo = {}
+
     def run(v, w):
-        s = aero_surface("wing", mesh, sym, with_viscous=flag(kind, v), with_wave=flag(kind, w), CD0=desc["CD0"], k_lam=k)
+        s = aero_surface("wing", mesh, sym, with_viscous=flag(kind, v), with_wave=flag(kind, w), CD0=desc["CD0"], k_lam=k, CL0=CL0)
         prob = aero_direct([s], fl, t_over_c=[desc["toc"]])
         prob.run_model()
+        for q in ("widths", "lengths_spanwise", "chords"):
+            geo[q] = np.array(prob.get_val("aero_point_0.wing." + q)).copy()
         return {q: float(prob.get_val("aero_point_0.wing_perf." + q)[0]) for q in ("CD", "CDi", "CDv", "CDw", "CL")}
 
     v, w = desc["with_viscous"], desc["with_wave"]
@@ -472,6 +478,15 @@ def verdict_switches(desc):
         out.true("switches/wave_off_is_exactly_zero", r["CDw"] == 0.0, "CDw = %r with with_wave=%r" % (r["CDw"], flag(kind, w)))
     else:
         out.true("switches/CDw_independent_of_viscous_switch", r["CDw"] == full["CDw"], "%r vs %r" % (r["CDw"], full["CDw"]))
+    # the wave drag reported by the group is the Korn estimate for the lift coefficient the group REPORTS (CL0 included):
+    # the component alone, fed with the group's geometry and that CL, must reproduce it
+    from openaerostruct.aerodynamics.wave_drag import WaveDrag
+
+    pw = one_comp(WaveDrag(surface=aero_surface("wing", mesh, sym, with_wave=True)), t_over_c=desc["toc"] * np.ones(mesh.shape[1] - 1), **geo)
+    cw_alone = evaluate(pw, "CDw", Mach_number=fl["Mach"], CL=full["CL"])
+    out.close("switches/CDw_is_korn_for_reported_CL", [full["CDw"]], [cw_alone], rtol=1e-12, atol=1e-15)
+    if CL0 != 0.0:
+        out.label("CL0!=0")
     out.true("switches/CDi_independent_of_switches", r["CDi"] == full["CDi"] and r["CL"] == full["CL"],
              "CDi %r vs %r" % (r["CDi"], full["CDi"]))
     out.true("switches/all_on_viscous_positive", full["CDv"] > 0.0, "CDv = %r with everything on (flag type %s)" % (full["CDv"], kind))
